@@ -306,8 +306,8 @@ def run_property(plan, tier, seed, t_start):
             continue
         r = by[key]
         st = r["status"]
-        props = r.get("props", {})
-        stats = r.get("stats", {})
+        props = r.get("props") or {}
+        stats = r.get("stats") or {}
         row["status"] = st
         row["checks"] = props.get("total_properties", len(r.get("checks", [])))
         row["covers_satisfied"] = props.get("satisfied", 0)
